@@ -167,6 +167,11 @@ func FilterJSON(t *rapid.T, fields []string, depth int, label string) string {
 
 		op := rapid.SampledFrom([]string{"and", "or"}).Draw(t, label+"-op")
 
+		// (a combining node may carry a collation too)
+		if rapid.IntRange(0, 3).Draw(t, label+"-nodecol") == 0 {
+			return fmt.Sprintf(`{"o":%q,"c":"nocase","v":[%s]}`, op, strings.Join(kids, ","))
+		}
+
 		return fmt.Sprintf(`{"o":%q,"v":[%s]}`, op, strings.Join(kids, ","))
 	}
 
@@ -380,6 +385,13 @@ func URLRequest(t *rapid.T, ss *SchemaSpec, o URLOpts) *URLReq {
 
 			if !o.Valid {
 				pool = append(pool, "nope", "", " ")
+
+				// fields of the other types: not fields of this one
+				for i := range ss.Types {
+					if ss.Types[i].Name != tn {
+						pool = append(pool, ss.Types[i].Fields()...)
+					}
+				}
 			}
 
 			n := rapid.IntRange(0, 5).Draw(t, "nfields")
